@@ -289,8 +289,9 @@ def do_replay(prop: str, path: str) -> int:
         # simulated and observed in the real directory, loaded again
         from .props import fileops
         return fileops.replay(case)
-    if prop == "C17" and "delivery" in case:
-        # C17: writes and a disconnect over a real loopback connection to a peer with a reading policy: re-executed
+    if prop == "C17" and ("delivery" in case or "preconnection" in case):
+        # C17: writes and a disconnect over a real loopback connection to a peer with a reading policy, or calls on a
+        # TCPTransport / SerialTransport object while it has no connection: re-executed
         from .props import stream
         return stream.replay(case)
     if "churn" in case:
